@@ -8,6 +8,9 @@
 #ifndef VF_TUPLE_CAT
 #define VF_TUPLE_CAT 0
 #endif
+#ifndef VF_FUNCTION_REF
+#define VF_FUNCTION_REF 0
+#endif
 #ifndef VF_MEMPTR
 #define VF_MEMPTR 0 /* cxx2c: "UNSUPPORTED: member pointer type" */
 #endif
@@ -19,6 +22,7 @@ namespace vf {
   VF_E void p##S##_default(P##S* out) { new (out) P##S(); }                                                          \
   VF_E void p##S##_ctor_val(P##S* out, T1 const& a, T2 const& b) { new (out) P##S(a, b); }                           \
   VF_E void p##S##_ctor_fwd(P##S* out, T1 a, T2 b) { new (out) P##S(etl::move(a), etl::move(b)); }                   \
+  VF_E void p##S##_ctor_conv(P##S* out, short a, signed char b) { new (out) P##S(a, b); }                            \
   VF_E void p##S##_copy(P##S* out, P##S const& o) { new (out) P##S(o); }                                             \
   VF_E void p##S##_move(P##S* out, P##S& o) { new (out) P##S(etl::move(o)); }                                        \
   VF_E void p##S##_make(P##S* out, T1 a, T2 b) { new (out) P##S(etl::make_pair(a, b)); }                             \
@@ -49,7 +53,7 @@ VF_E int pic_sb(Pic const& p, char* c) { auto [a, b] = p; *c = b; return a; }
 // ---- ghost log + callables ------------------------------------------------------------------------------------------
 struct Log { unsigned calls; int a0; int a1; int a2; };
 Log* g_log();   // EXTERNAL ghost hook: the log used by the free functions with a fixed signature (defined in harness.c)
-inline auto enc3(int a, int b, int c) -> int { return static_cast<int>(static_cast<unsigned>(a) + 3U * static_cast<unsigned>(b) + 7U * static_cast<unsigned>(c)); }
+inline auto enc3(int a, int b, int c) -> int { return static_cast<int>(static_cast<unsigned>(a) ^ (static_cast<unsigned>(b) << 11U) ^ (static_cast<unsigned>(c) << 22U)); }
 struct Fun { Log* log; int k; auto operator()(int x) const -> int { ++log->calls; log->a0 = x; return x ^ k; } };
 struct Enc2 { Log* log; auto operator()(int a, char b) const -> int { ++log->calls; log->a0 = a; log->a1 = b; return enc3(a, b, 0); } };
 struct Enc3 { Log* log; auto operator()(int a, int b, int c) const -> int { ++log->calls; log->a0 = a; log->a1 = b; log->a2 = c; return enc3(a, b, c); } };
@@ -150,6 +154,7 @@ VF_E int rwf_call(Fun& f, int x) { return etl::ref(f)(x); }
 VF_E int rwf_call_c(Fun const& f, int x) { return etl::cref(f)(x); }
 VF_E int rwf_invoke(Fun& f, int x) { return etl::invoke(etl::ref(f), x); }
 
+#if VF_FUNCTION_REF /* function_ref.hpp:31 `+[](void*, Args...)`: cxx2c emits unary plus on a function pointer, goto-cc: "operator 'unary+' not defined for type 'signed int (*)(void *, signed int)'" */
 // ---- function_ref<int(int)> -----------------------------------------------------------------------------------------
 // cxx2c: "UNSUPPORTED: expr kind CXXInheritedCtorInitExpr" for etl::function_ref<int(int)> (it only inherits the constructors of its base):
 // the driver instantiates the base detail::function_ref<false, int(int)>, which holds the whole implementation.
@@ -161,6 +166,8 @@ VF_E void fr_from_free(FR* out) { new (out) FR(free1); }
 VF_E void fr_copy(FR* out, FR const& o) { new (out) FR(o); }
 VF_E void fr_assign(FR& a, FR const& b) { a = b; }
 VF_E int fr_call(FR const& r, int x) { return r(x); }
+
+#endif
 
 // ---- bind_front / not_fn --------------------------------------------------------------------------------------------
 VF_E int bf_call(Log& l, int a, int b, int a2, int x, int mode) {
@@ -175,7 +182,13 @@ VF_E bool nf_call(Fun const& f, int x, int mode) {
     if (mode == 0) { return n(x); }
     if (mode == 1) { return etl::as_const(n)(x); }
     return etl::move(n)(x); }
+#if defined(__SANITIZE_ADDRESS__)
+// g++ -fsanitize=undefined implies -fno-delete-null-pointer-checks; `static_assert(ConstFn != nullptr)` (not_fn.hpp:95) is then rejected as
+// "not a constant expression". Only the sanitized native replay build takes this branch (run-time form of the same wrapper).
+VF_E bool nf_stateless(int x) { return etl::not_fn(&free1)(x); }
+#else
 VF_E bool nf_stateless(int x) { return etl::not_fn<&free1>()(x); }
+#endif
 
 // ---- inplace_function<int(int), 16, 8> ------------------------------------------------------------------------------
 // Cnt: stateful (n counts its own calls) and logging; Sml: small pure callable of another type
